@@ -482,14 +482,14 @@ func C12(c *Ctx) {
 			call, ok := in.(ssa.CallInstruction)
 			return ok && strings.HasSuffix(core.CalleeName(call), "ledger.revertJournal")
 		})
-		n := c.mustPrecede("R12.2", "RollbackState", rs, func(in ssa.Instruction) bool {
+		n := c.mustPrecede("R12.2", "RollbackState", rs, c.throughHelpers(func(in ssa.Instruction) bool {
 			call, ok := in.(ssa.CallInstruction)
 			return ok && strings.HasSuffix(core.CalleeName(call), "SimpleLedger).Clear")
-		}, isRevert, "l.Clear()", "revertJournal")
-		c.mustPrecede("R12.2", "RollbackState", rs, func(in ssa.Instruction) bool {
+		}), isRevert, "l.Clear()", "revertJournal")
+		c.mustPrecede("R12.2", "RollbackState", rs, c.throughHelpers(func(in ssa.Instruction) bool {
 			call, ok := in.(ssa.CallInstruction)
 			return ok && strings.HasSuffix(core.CalleeName(call), "AccountCache).clear")
-		}, isRevert, "accountCache.clear()", "revertJournal")
+		}), isRevert, "accountCache.clear()", "revertJournal")
 		r.Floor("R12.2", "journal revert sites", n, 1)
 	}
 
